@@ -1,6 +1,6 @@
 (* C01 -- the model (Mem/Strings.v through Mem/Exec.v) satisfies the reference clauses of
    Mem/StringsSpec.v, for all argument byte strings and all well-formed databases. *)
-Require Import Base.Bytes Base.GoInt Base.Reply Mem.Types Mem.Inv Mem.Strings Mem.StringsSpec.
+Require Import Base.Bytes Base.GoInt Base.Reply Mem.Types Mem.Inv Mem.Strings Mem.Lists Mem.Exec Mem.StringsSpec.
 Require Import Glob.GlobSpec Glob.GlobModel Glob.GlobProofs.
 From Coq Require Import ZifyBool.
 Local Open Scope Z_scope.
@@ -836,12 +836,14 @@ Section Step.
     destruct ((o_nx o && o_xx o) || (1 <? kinds_of o)) eqn:BAD.
     { rewrite (set_conflict_bad now o BAD). start H HV'; split; [auto with c01|same HV']. }
     rewrite (set_decide now o BAD).
+    assert (K1 : kinds_of o <= 1).
+    { apply orb_false_iff in BAD. destruct BAD as [_ B2]. apply Z.ltb_ge in B2. exact B2. }
     assert (WR : forall V', (forall k', V' k' = view (set_apply_ttl (db_set d k (VStr v)) now k o) now k') ->
                  deadline_of now o <> Some None ->
                  veq V' (written V now k v (match deadline_of now o with
                                             | Some (Some dl) => Some dl
                                             | _ => if o_keepttl o then old_ttl k else None end))).
-    { intros V0 H0 H1. apply write_ok; [lia|exact H1|exact H0]. }
+    { intros V0 H0 H1. exact (write_ok k v o V0 K1 H1 H0). }
     unfold old_ttl in WR. revert WR.
     destruct (deadline_of now o) as [[dl|]|] eqn:D.
     - ck k E; intros WR; destruct (o_nx o), (o_xx o), (o_get o); cbn [andb orb] in BAD; try discriminate BAD;
@@ -977,64 +979,132 @@ Proof.
   Ltac name_case E eqn := unfold is in E; apply bytes_eqb_eq in E;
     match goal with H : exec _ _ _ _ _ = _ |- _ => rewrite (eqn _ _ _ _ _ _ E) in H end.
   Ltac rejected_case REJ :=
-    match goal with H : _ = (_, _) |- _ => cbn in H; injection H as <- <-; exact REJ end.
+    match goal with H : _ = (_, _) |- _ =>
+      lazy beta iota delta [exec_get exec_set exec_setnx exec_setex exec_append exec_strlen exec_getrange
+        exec_setrange exec_incr exec_decr exec_incrby exec_decrby exec_incrbyfloat exec_type exec_rename
+        exec_keys] in H; injection H as <- <-; exact REJ end.
   destruct (is (lower c) (B "get")) eqn:E1.
-  { name_case E1 exec_get_eq. destruct rest as [|k [|? ?]]; try rejected_case REJ.
-    eapply get_ok; eauto. }
+  { name_case E1 exec_get_eq. destruct rest as [|k [|? ?]]; [rejected_case REJ|eapply get_ok; eauto|rejected_case REJ]. }
   destruct (is (lower c) (B "set")) eqn:E2.
-  { name_case E2 exec_set_eq. destruct rest as [|k [|v opts]]; try rejected_case REJ.
-    eapply set_ok; eauto. }
+  { name_case E2 exec_set_eq. destruct rest as [|k [|v opts]]; [rejected_case REJ|rejected_case REJ|eapply set_ok; eauto]. }
   destruct (is (lower c) (B "setnx")) eqn:E3.
-  { name_case E3 exec_setnx_eq. destruct rest as [|k [|v [|? ?]]]; try rejected_case REJ.
-    eapply setnx_ok; eauto. }
+  { name_case E3 exec_setnx_eq. destruct rest as [|k [|v [|? ?]]]; [rejected_case REJ|rejected_case REJ|eapply setnx_ok; eauto|rejected_case REJ]. }
   destruct (is (lower c) (B "setex")) eqn:E4.
-  { name_case E4 exec_setex_eq. destruct rest as [|k [|s [|v [|? ?]]]]; try rejected_case REJ.
-    eapply setex_ok; eauto. }
+  { name_case E4 exec_setex_eq. destruct rest as [|k [|s [|v [|? ?]]]]; [rejected_case REJ|rejected_case REJ|rejected_case REJ|eapply setex_ok; eauto|rejected_case REJ]. }
   destruct (is (lower c) (B "mset")) eqn:E5.
   { name_case E5 exec_mset_eq. eapply mset_ok; eauto. }
   destruct (is (lower c) (B "mget")) eqn:E6.
   { name_case E6 exec_mget_eq. eapply mget_ok; eauto. }
   destruct (is (lower c) (B "append")) eqn:E7.
-  { name_case E7 exec_append_eq. destruct rest as [|k [|v [|? ?]]]; try rejected_case REJ.
-    eapply append_ok; eauto. }
+  { name_case E7 exec_append_eq. destruct rest as [|k [|v [|? ?]]]; [rejected_case REJ|rejected_case REJ|eapply append_ok; eauto|rejected_case REJ]. }
   destruct (is (lower c) (B "strlen")) eqn:E8.
-  { name_case E8 exec_strlen_eq. destruct rest as [|k [|? ?]]; try rejected_case REJ.
-    eapply strlen_ok; eauto. }
+  { name_case E8 exec_strlen_eq. destruct rest as [|k [|? ?]]; [rejected_case REJ|eapply strlen_ok; eauto|rejected_case REJ]. }
   destruct (is (lower c) (B "getrange")) eqn:E9.
-  { name_case E9 exec_getrange_eq. destruct rest as [|k [|s [|e [|? ?]]]]; try rejected_case REJ.
-    eapply getrange_ok; eauto. }
+  { name_case E9 exec_getrange_eq. destruct rest as [|k [|s [|e [|? ?]]]]; [rejected_case REJ|rejected_case REJ|rejected_case REJ|eapply getrange_ok; eauto|rejected_case REJ]. }
   destruct (is (lower c) (B "setrange")) eqn:E10.
-  { name_case E10 exec_setrange_eq. destruct rest as [|k [|s [|e [|? ?]]]]; try rejected_case REJ.
-    eapply setrange_ok; eauto. }
+  { name_case E10 exec_setrange_eq. destruct rest as [|k [|s [|e [|? ?]]]]; [rejected_case REJ|rejected_case REJ|rejected_case REJ|eapply setrange_ok; eauto|rejected_case REJ]. }
   destruct (is (lower c) (B "incr")) eqn:E11.
-  { name_case E11 exec_incr_eq. destruct rest as [|k [|? ?]]; try rejected_case REJ.
-    eapply incr_ok; eauto. }
+  { name_case E11 exec_incr_eq. destruct rest as [|k [|? ?]]; [rejected_case REJ|eapply incr_ok; eauto|rejected_case REJ]. }
   destruct (is (lower c) (B "decr")) eqn:E12.
-  { name_case E12 exec_decr_eq. destruct rest as [|k [|? ?]]; try rejected_case REJ.
-    eapply incr_ok; eauto. }
+  { name_case E12 exec_decr_eq. destruct rest as [|k [|? ?]]; [rejected_case REJ|eapply incr_ok; eauto|rejected_case REJ]. }
   destruct (is (lower c) (B "incrby")) eqn:E13.
-  { name_case E13 exec_incrby_eq. destruct rest as [|k [|v [|? ?]]]; try rejected_case REJ.
-    eapply incrby_ok; eauto. }
+  { name_case E13 exec_incrby_eq. destruct rest as [|k [|v [|? ?]]]; [rejected_case REJ|rejected_case REJ|eapply incrby_ok; eauto|rejected_case REJ]. }
   destruct (is (lower c) (B "decrby")) eqn:E14.
-  { name_case E14 exec_decrby_eq. destruct rest as [|k [|v [|? ?]]]; try rejected_case REJ.
-    eapply decrby_ok; eauto. }
+  { name_case E14 exec_decrby_eq. destruct rest as [|k [|v [|? ?]]]; [rejected_case REJ|rejected_case REJ|eapply decrby_ok; eauto|rejected_case REJ]. }
   destruct (is (lower c) (B "incrbyfloat")) eqn:E15.
-  { name_case E15 exec_incrbyfloat_eq. destruct rest as [|k [|v [|? ?]]]; try rejected_case REJ.
-    eapply incrbyfloat_ok; eauto. }
+  { name_case E15 exec_incrbyfloat_eq. destruct rest as [|k [|v [|? ?]]]; [rejected_case REJ|rejected_case REJ|eapply incrbyfloat_ok; eauto|rejected_case REJ]. }
   destruct (is (lower c) (B "del")) eqn:E16.
   { name_case E16 exec_del_eq. eapply del_ok; eauto. }
   destruct (is (lower c) (B "exists")) eqn:E17.
   { name_case E17 exec_exists_eq. eapply exists_ok; eauto. }
   destruct (is (lower c) (B "type")) eqn:E18.
-  { name_case E18 exec_type_eq. destruct rest as [|k [|? ?]]; try rejected_case REJ.
-    eapply type_ok; eauto. }
+  { name_case E18 exec_type_eq. destruct rest as [|k [|? ?]]; [rejected_case REJ|eapply type_ok; eauto|rejected_case REJ]. }
   destruct (is (lower c) (B "rename")) eqn:E19.
-  { name_case E19 exec_rename_eq. destruct rest as [|k [|v [|? ?]]]; try rejected_case REJ.
-    eapply rename_ok; eauto. }
+  { name_case E19 exec_rename_eq. destruct rest as [|k [|v [|? ?]]]; [rejected_case REJ|rejected_case REJ|eapply rename_ok; eauto|rejected_case REJ]. }
   destruct (is (lower c) (B "keys")) eqn:E20.
-  { name_case E20 exec_keys_eq. destruct rest as [|k [|? ?]]; try rejected_case REJ.
-    eapply keys_ok; eauto. }
+  { name_case E20 exec_keys_eq. destruct rest as [|k [|? ?]]; [rejected_case REJ|eapply keys_ok; eauto|rejected_case REJ]. }
   destruct (is (lower c) (B "ping")) eqn:E21.
   { name_case E21 exec_ping_eq. eapply ping_ok; eauto. }
   exact I.
+Qed.
+
+(* ------------------------------------------------------------------ db_wf is preserved; replies are well-framed *)
+Lemma del_keys_wf keys : forall d n, db_wf d -> db_wf (snd (del_keys d keys n)).
+Proof.
+  induction keys as [|k r IH]; intros d n W; [exact W|].
+  cbn [del_keys]. destruct (db_get d k); apply IH; apply db_wf_del; exact W.
+Qed.
+
+Lemma mset_pairs_wf l :
+  (forall d d', db_wf d -> mset_pairs d l = Some d' -> db_wf d') /\
+  (forall a d d', db_wf d -> mset_pairs d (a :: l) = Some d' -> db_wf d').
+Proof.
+  induction l as [|b l [IH1 IH2]].
+  - split; [intros d d' W H; inversion H; subst; exact W|intros a d d' W H; discriminate].
+  - split; [apply IH2|]. intros a d d' W H. cbn [mset_pairs] in H.
+    eapply IH1; [|exact H]. apply db_wf_set, db_wf_del_ttl, W.
+Qed.
+
+Lemma set_apply_ttl_wf d now k o : db_wf d -> db_wf (set_apply_ttl d now k o).
+Proof.
+  intros W. unfold set_apply_ttl.
+  destruct (o_keepttl o), (o_ex o), (o_px o), (o_exat o);
+    repeat (apply db_wf_set_ttl || apply db_wf_del_ttl); exact W.
+Qed.
+
+Lemma follow_hint_wf d k hint r d' : db_wf d -> follow_hint d k hint = (r, d') -> db_wf d'.
+Proof. intros W. unfold follow_hint. destruct hint; intros H; injection H as <- <-; auto using db_wf_set. Qed.
+
+Ltac wf_step :=
+  match goal with
+  | H : (_, _) = (_, _) |- _ => injection H as <- <-
+  | H : Some _ = Some _ |- _ => injection H as <-
+  | H : None = Some _ |- _ => discriminate H
+  | H : context [let '(_, _) := ?x in _] |- _ => destruct x eqn:?
+  | H : context [match ?x with _ => _ end] |- _ => destruct x eqn:?
+  | H : context [if ?x then _ else _] |- _ => destruct x eqn:?
+  end.
+Ltac wf_fin :=
+  repeat match goal with |- db_wf (match ?x with _ => _ end) => destruct x end;
+  repeat (apply db_wf_set || apply db_wf_del || apply db_wf_set_ttl || apply db_wf_del_ttl
+          || apply set_apply_ttl_wf); try assumption.
+
+Theorem strings_dispatch_wf_pres d now nowms n args hint r d' :
+  db_wf d -> strings_dispatch d now nowms n args hint = Some (r, d') -> db_wf d'.
+Proof.
+  intros W H. unfold strings_dispatch in H.
+  repeat match type of H with
+  | (if ?c then _ else _) = _ => destruct c
+  end; try discriminate H; injection H as H.
+  - unfold exec_set in H. repeat wf_step; wf_fin.
+  - unfold exec_get in H. repeat wf_step; wf_fin.
+  - unfold exec_getrange in H. repeat wf_step; wf_fin.
+  - unfold exec_setrange in H. repeat wf_step; wf_fin.
+  - unfold exec_mget in H. repeat wf_step; wf_fin.
+  - unfold exec_mset in H. repeat wf_step; wf_fin.
+    match goal with E : mset_pairs _ _ = Some _ |- _ => eapply (proj1 (mset_pairs_wf _)); [|exact E]; exact W end.
+  - unfold exec_setex in H. repeat wf_step; wf_fin.
+  - unfold exec_setnx in H. repeat wf_step; wf_fin.
+  - unfold exec_strlen in H. repeat wf_step; wf_fin.
+  - unfold exec_incr, incr_by in H. repeat wf_step; wf_fin.
+  - unfold exec_decr, incr_by in H. repeat wf_step; wf_fin.
+  - unfold exec_incrby, incr_by in H. repeat wf_step; wf_fin.
+  - unfold exec_decrby, incr_by in H. repeat wf_step; wf_fin.
+  - unfold exec_incrbyfloat in H.
+    repeat match goal with
+    | H : follow_hint _ _ _ = _ |- _ => eapply follow_hint_wf in H; [exact H|exact W]
+    | _ => wf_step
+    end; wf_fin.
+  - unfold exec_append in H. repeat wf_step; wf_fin.
+  - unfold exec_del in H. destruct args as [|a0 [|a1 ar]]; try (injection H as <- <-; exact W).
+    destruct (del_keys d (a1 :: ar) 0) as [n0 d1] eqn:D. injection H as <- <-.
+    pose proof (del_keys_wf (a1 :: ar) d 0 W) as X. rewrite D in X. exact X.
+  - unfold exec_exists in H. repeat wf_step; wf_fin.
+  - unfold exec_keys in H. repeat wf_step; wf_fin.
+  - unfold exec_expire in H. cbv zeta in H. repeat wf_step; wf_fin.
+  - unfold exec_persist in H. repeat wf_step; wf_fin.
+  - unfold exec_ttl in H. repeat wf_step; wf_fin.
+  - unfold exec_type in H. repeat wf_step; wf_fin.
+  - unfold exec_rename in H. repeat wf_step; wf_fin.
+  - unfold exec_ping in H. repeat wf_step; wf_fin.
 Qed.
